@@ -58,6 +58,9 @@ def make_pool(rng):
     tbl = [p for p in gen.smooth_table(rng, 25) if p[0] >= 0.4]
     specs[1]["table"] = tbl
     specs[1].pop("_restate", None)
+    # winds that carry the rarely passed max_distance_feet keyword *below* their explicit until-distance (the explicit end counts)
+    specs[2]["winds"] = [[round(rng.uniform(8, 25), 1), 90.0, 2400.0], [round(rng.uniform(5, 20), 1), 250.0, 1800.0]]
+    specs[2]["wind_max_factor"] = 0.625
     shots = [build.shot(s) for s in specs]
     shared = 0
     # share objects on purpose
